@@ -359,19 +359,30 @@ class Interp:
                 new = OPAQUE
             env[t["name"]] = new
             return new if e["op"].startswith("pre") else old
+        if t["k"] == "member":
+            b = self.expr(f, t["base"], env, depth)
+            if isinstance(b, dict) and t["field"] in b:
+                old = b[t["field"]]
+                new = old + d if isinstance(old, int) else (old.add(d) if isinstance(old, Ptr) else OPAQUE)
+                b[t["field"]] = new
+                return new if e["op"].startswith("pre") else old
         return OPAQUE
 
     def _assign(self, f, lv, val, env, depth):
         if lv["k"] == "ref":
             env[lv["name"]] = _wrap(val, lv.get("ty")) if isinstance(val, int) else val
         elif lv["k"] == "sub":
-            b = self.expr(f, lv["base"], env, depth) if lv["base"]["k"] == "ref" else None
+            b = self.expr(f, lv["base"], env, depth) if lv["base"]["k"] in ("ref", "member") else None
             i = self.expr(f, lv["idx"], env, depth)
             if isinstance(b, dict) and isinstance(i, int):
                 b[i] = val
-                nm = lv["base"]["name"]
+                nm = lv["base"].get("name") or lv["base"].get("field")
                 self.counters[nm] = max(self.counters.get(nm, -1), i)
-        # stores through members / other pointers have no effect on the abstraction
+        elif lv["k"] == "member":
+            b = self.expr(f, lv["base"], env, depth)
+            if isinstance(b, dict):
+                b[lv["field"]] = val
+        # stores through other pointers have no effect on the abstraction
 
     def _bin(self, f, e, env, depth):
         op = e["op"]
